@@ -1,8 +1,8 @@
 SPECIFICATION TSpec
 CONSTANTS
-  PDiv = 1
+  PDiv = 3
   Keys = {1,2,3,4,5,6,7,8,9,10,11,12}
-  Prios = {1,2,3,4,5,6}
+  Prios = {1,2,3,4,5,6,7,8,9}
   NIter = 3
   Inits = {}
 CONSTRAINT HWM
